@@ -196,7 +196,18 @@ func ruleSingleWrite(c *core.Ctx, a *epAnchors) {
 	var buf ssa.Value
 	asm := fn                        // the function that assembles the buffer
 	var asmEnd ssa.Instruction = fin // where the assembled bytes leave it
+	var appendedPayload ssa.Instruction
 	if bcall != nil {
+		// append(head.Bytes(), m.Payload...): the payload joined to the header bytes of the
+		// private buffer in one slice
+		if bi, isB := bcall.Call.Value.(*ssa.Builtin); isB && bi.Name() == "append" && len(bcall.Call.Args) == 2 && isFieldOf(bcall.Call.Args[1], payloadF) {
+			if inner, _ := core.CallResult(core.Canon(bcall.Call.Args[0])); inner != nil {
+				if g := inner.Call.StaticCallee(); g != nil && g.Name() == "Bytes" && g.Signature.Recv() != nil && core.TypeIs(g.Signature.Recv().Type(), "bytes", "Buffer") {
+					appendedPayload = bcall
+					bcall = inner
+				}
+			}
+		}
 		if f := bcall.Call.StaticCallee(); f != nil && f.Name() == "Bytes" && f.Signature.Recv() != nil && core.TypeIs(f.Signature.Recv().Type(), "bytes", "Buffer") {
 			buf = core.Canon(bcall.Call.Args[0])
 		} else if f != nil && isPrivateHelper(c, f) && len(f.Blocks) > 0 && !usesValue(bcall, w) {
@@ -235,6 +246,24 @@ func ruleSingleWrite(c *core.Ctx, a *epAnchors) {
 	case *ssa.Call:
 		if f := x.Call.StaticCallee(); f != nil && (core.FuncKey(f) == "bytes.NewBuffer" || core.FuncKey(f) == "bytes.NewBufferString") {
 			local = true
+		} else if f != nil && isPrivateHelper(c, f) && len(f.Blocks) > 0 {
+			// a small constructor of the package: every return is a buffer made on the spot
+			local = true
+			for _, r := range core.Returns(f) {
+				if len(r.Results) != 1 {
+					local = false
+					continue
+				}
+				switch y := core.Canon(core.RetVal(r, 0)).(type) {
+				case *ssa.Alloc:
+				case *ssa.Call:
+					if g := y.Call.StaticCallee(); g == nil || (core.FuncKey(g) != "bytes.NewBuffer" && core.FuncKey(g) != "bytes.NewBufferString") {
+						local = false
+					}
+				default:
+					local = false
+				}
+			}
 		}
 	}
 	if !local {
@@ -249,6 +278,9 @@ func ruleSingleWrite(c *core.Ctx, a *epAnchors) {
 		if core.IsCallTo(call, writeN) && call != final && core.Canon(call.Common().Args[0]) == buf && isFieldOf(call.Common().Args[1], payloadF) {
 			pw = call.(ssa.Instruction)
 		}
+	}
+	if pw == nil && appendedPayload != nil {
+		pw = appendedPayload
 	}
 	if hw == nil || pw == nil {
 		c.Fail(rule, bufKey, final.Pos(), "the buffer written to the stream does not receive both the header (Header.Write) and the payload (WriteN of m.Payload)")
